@@ -8,6 +8,8 @@
     revise                                        update(Points); revision_points(); revision_observations()
     revobs                                        revision_observations()
     abs <tol> <n> <rhs × n> <b × n>               huge_abs_terms(); test_abs_term(1..n); remove_huge_abs_terms()
+    hom <m0> <n> <stdev × n> <rhs × n>            the member b after prepareProjectEquations() when no cluster has
+                                                  correlations (`homDiag`)
 -/
 import Gama.Proto
 import Gama.Model.Revise
@@ -55,7 +57,7 @@ def step (s : St) (line : String) : St × String :=
     | _, _, _, _, _, _, _, _ => (s, "bad-op")
   | ["cl", st] =>
     match bool? st with
-    | some st => ({ s with cls := s.cls ++ [{ stand := st, obs := [], actObs := 0 }] }, "")
+    | some st => ({ s with cls := s.cls ++ [{ stand := st, obs := [], actObs := 0, cov := fun _ _ => 0 }] }, "")
     | none => (s, "bad-op")
   | ["ob", ty, frm, to, fs, act, v] =>
     match obsType? ty, frm.toNat?, to.toNat?, fs.toNat?, bool? act, float? v with
@@ -76,6 +78,12 @@ def step (s : St) (line : String) : St × String :=
       let terms := absTerms s tol rhs bh
       let s' := removeHuge s tol rhs bh
       (s', "\n".intercalate [s!"flag {b01 flag}", "terms " ++ renderAll terms, showObsFlags s'])
+    | _, _, _ => (s, "bad-op")
+  | "hom" :: m0 :: n :: rest =>
+    match float? m0, n.toNat?, parseAll (K := Float) rest with
+    | some m0, some n, some vals =>
+      if vals.length ≠ 2 * n then (s, "bad-op") else
+      (s, "hom " ++ renderAll (homDiag m0 (vals.take n) (vals.drop n)))
     | _, _, _ => (s, "bad-op")
   | _ => (s, "bad-op")
 
